@@ -1,2 +1,102 @@
-From Sup Require Import Node NodeSpec.
-Theorem placeholder07 : True. Proof. exact I. Qed.
+(* C07 — failure detection of Supvisors instances: property-level theorems (proofs in proofs/NodeInstProofs.v).
+   Model: model/Node.v (one instance's control plane); checkers written from the property text: model/NodeSpec.v.
+   WFI n: the instance table has no duplicate key and the local instance is not marked ISOLATED (true of every
+   start-up node, preserved by every event). *)
+From Sup Require Import Node NodeSpec NodeInstProofs.
+
+(* The reflected transition table of SupvisorsInstanceStatus lies within the documented graph
+   STOPPED, CHECKING, CHECKED, RUNNING, FAILED and back to STOPPED or to ISOLATED; ISOLATED has no successor. *)
+Theorem C07_table_within_documented : forall a b : istate,
+  inst_transition_ok a b = true -> documented_inst_edge (icode a) (icode b) = true.
+Proof. exact inst_table_within_documented. Qed.
+
+Theorem C07_isolated_no_successor : forall b, inst_transition_ok ISOLATED b = false.
+Proof. exact isolated_no_successor. Qed.
+
+(* Well-formedness is an invariant. *)
+Theorem C07_wfi_invariant : forall n e n' outs, WFI n -> step n e = Ok (n', outs) -> WFI n'.
+Proof. exact step_WFI. Qed.
+
+(* Within one event every instance moves by one documented edge, or through FAILED to STOPPED / ISOLATED,
+   and the local instance does not become ISOLATED. *)
+Theorem C07_graph_step : forall n e n' outs, WFI n -> step n e = Ok (n', outs) ->
+  c07_graph (n_me n) (init_ist n) (init_ist n') = true.
+Proof. exact step_inst_graph. Qed.
+
+(* Detection at one event — completeness: at a local tick an instance in an active state, silent for more than
+   inactivity_ticks local ticks, ends the event STOPPED or ISOLATED; accuracy: a RUNNING instance leaves RUNNING only
+   at such a tick or on a failure notice for itself; fencing: ISOLATED is chosen only with auto_fence (or by the
+   handshake). Premise: the local TICK counter does not go backwards (tick_sane). *)
+Theorem C07_detection_step : forall n e n' outs, WFI n -> tick_sane n e = true -> step n e = Ok (n', outs) ->
+  c07_detection (n_me n) (o_inactivity (n_opts n)) (o_auto_fence (n_opts n)) e (init_ist n) (init_ist n') = true.
+Proof. exact detection. Qed.
+
+(* The premise cannot be dropped: when the local counter goes backwards the local instance declares itself
+   FAILED then STOPPED (SupvisorsTimes.update treats it as a stealth restart). *)
+Theorem C07_detection_needs_monotone_local_ticks : exists n e n' outs, WFI n /\ step n e = Ok (n', outs) /\
+  c07_detection (n_me n) (o_inactivity (n_opts n)) (o_auto_fence (n_opts n)) e (init_ist n) (init_ist n') = false.
+Proof. exact detection_needs_tick_sane. Qed.
+
+(* Accuracy in the property's wording: a peer seen RUNNING, for which no XML-RPC failure is notified and whose
+   last TICK is never older than inactivity_ticks local ticks when a local tick arrives (live_hyp, checked along
+   the run), is RUNNING after every event of the history. *)
+Theorem C07_live_peer_never_lost : forall j evs n, WFI n -> j <> n_me n -> inst_state n j = Some IRUNNING ->
+  run_all (live_hyp j) n evs = true ->
+  forall evs1 evs2 n', evs = evs1 ++ evs2 -> run_state n evs1 = Ok n' -> inst_state n' j = Some IRUNNING.
+Proof. exact live_peer_never_lost. Qed.
+
+(* A TICK of peer j taken into account tags j with the current local counter, unless j's own counter went
+   backwards (stealth restart: the tag is reset to 0, which is the "has not restarted" proviso). *)
+Theorem C07_peer_tick_tags : forall n og rc now n' o j s, WFI n -> step n (PeerTick og rc now) = Ok (n', o) ->
+  resolve n og = Some j -> local_checked_or_running n = true -> aget j (n_insts n) = Some s ->
+  exists s', aget j (n_insts n') = Some s' /\ is_remote_cnt s' = rc /\
+    is_local_cnt s' = (if rc <? is_remote_cnt s then 0 else if local_cnt n <? 0 then rc else local_cnt n).
+Proof. exact peer_tick_tags. Qed.
+
+(* Window formulation: if the last TICK of peer j (not restarted) was taken into account while the local counter
+   was c0 with cnt - c0 <= inactivity_ticks, the liveness premise holds at the local tick numbered cnt. *)
+Theorem C07_window_formulation : forall n j evs1 og rc now0 evs2 n1 n2 o1 n3 s1 cnt now orcs,
+  WFI n -> j <> n_me n ->
+  run_state n evs1 = Ok n1 ->
+  step n1 (PeerTick og rc now0) = Ok (n2, o1) -> resolve n1 og = Some j -> local_checked_or_running n1 = true ->
+  aget j (n_insts n1) = Some s1 -> is_remote_cnt s1 <= rc -> 0 <= local_cnt n1 ->
+  forallb (not_tick_of j) evs2 = true -> run_state n2 evs2 = Ok n3 ->
+  cnt - local_cnt n1 <= o_inactivity (n_opts n) ->
+  live_hyp j n3 (LocalTick cnt now orcs) = true.
+Proof. exact window_formulation. Qed.
+
+(* Every history: the C07 checker accepts the run of the model, provided the local TICK counter never goes
+   backwards (checked along the run). *)
+Theorem C07_every_history : forall n evs, WFI n -> run_all tick_sane n evs = true ->
+  nspec_ok fl_c07 (n, evs, run n evs) = true.
+Proof. exact run_c07. Qed.
+
+(* The same with a premise on the events only: local counters non-decreasing from `last` on, no TICK claiming
+   to come from the local instance. *)
+Theorem C07_every_monotone_history : forall n evs last, WFI n -> local_cnt n <= last ->
+  ticks_monotone (n_me n) last evs = true -> nspec_ok fl_c07 (n, evs, run n evs) = true.
+Proof. exact run_c07_monotone. Qed.
+
+Theorem C07_history_needs_monotone_local_ticks : exists n evs, WFI n /\ nspec_ok fl_c07 (n, evs, run n evs) = false.
+Proof. exact run_c07_needs_tick_sane. Qed.
+
+(* The local instance is never ISOLATED; ISOLATED is final. *)
+Theorem C07_local_never_isolated : forall n evs n', WFI n -> run_state n evs = Ok n' ->
+  inst_state n' (n_me n) <> Some ISOLATED.
+Proof. exact local_never_isolated. Qed.
+
+Theorem C07_isolated_final : forall n evs j, WFI n -> inst_state n j = Some ISOLATED ->
+  forall n', run_state n evs = Ok n' -> inst_state n' j = Some ISOLATED.
+Proof. exact isolated_absorbing. Qed.
+
+(* Non-vacuity: a peer becomes RUNNING, falls silent, is still RUNNING while within the bound and is lost at the
+   first local tick beyond it — ISOLATED with auto_fence, STOPPED without. *)
+Theorem C07_example_fenced :
+  states_of 2 (run (ex_node true) ex_hist)
+  = [Some 0; Some 0; Some 0; Some 1; Some 2; Some 3; Some 3; Some 3; Some 5; Some 5].
+Proof. exact ex_lost_fenced. Qed.
+
+Theorem C07_example_unfenced :
+  states_of 2 (run (ex_node false) ex_hist)
+  = [Some 0; Some 0; Some 0; Some 1; Some 2; Some 3; Some 3; Some 3; Some 0; Some 0].
+Proof. exact ex_lost_unfenced. Qed.
